@@ -44,6 +44,8 @@ SOURCES = {
     "docstring_future": '"""doc"""\nfrom __future__ import annotations\nimport shapes\n\ndef f(a):\n    return shapes.Sq(a)\n',
     "inside_function": "import sys\n\ndef f(a):\n    import shapes\n    return shapes.Sq(a)\n",
     "inside_function_from": "import sys\n\ndef f(a):\n    from shapes import Sq\n    return Sq(a)\n",
+    "tc_in_try": "try:\n    from typing import TYPE_CHECKING\nexcept ImportError:\n    TYPE_CHECKING = False\n\ndef f(a):\n    return a\n",
+    "tc_in_function": "import sys\n\ndef g():\n    from typing import TYPE_CHECKING\n    return TYPE_CHECKING\n\ndef f(a):\n    return a\n",
     "type_checking_block": "from typing import TYPE_CHECKING\nif TYPE_CHECKING:\n    from shapes import Sq\n\ndef f(a):\n    return a\n",
     "star": "from shapes import *\n\ndef f(a):\n    return Sq(a)\n",
     "no_imports": "def f(a):\n    return a\n",
@@ -230,7 +232,8 @@ def confine_body(t, pairs=None):
 
 
 QUICK_PAIRS = (("plain_import", "user_class"), ("from_alias", "typing_and_user"), ("docstring_future", "user_class"), ("no_imports", "typing_and_user"),
-               ("plain_import", "same_module_new_name"), ("from_alias", "same_name_as_alias"), ("no_imports", "typed_dict"), ("dotted_alias", "user_class"), ("no_imports", "typing_prefixed_module"), ("inside_function_from", "same_name_as_alias"), ("star", "same_module_new_name"))
+               ("plain_import", "same_module_new_name"), ("from_alias", "same_name_as_alias"), ("no_imports", "typed_dict"), ("dotted_alias", "user_class"), ("no_imports", "typing_prefixed_module"), ("inside_function_from", "same_name_as_alias"), ("star", "same_module_new_name"),
+               ("tc_in_try", "user_class"), ("tc_in_function", "user_class"))
 tape_harness("confine_quick", [("t", 1)], {}, lambda t: confine_body(t, QUICK_PAIRS), globals())
 tape_harness("confine_all", [("t", 2)], {}, lambda t: confine_body(t), globals())
 
